@@ -274,7 +274,16 @@ def gen_plan(seed, tier="quick", variant=None):
             b.update(id=200 + r9.randint(0, 9), after_call=a["id"])
             ops.append(b)
     t_end = round(max([horizon * 1.6] + [f["t"] for f in faults if "t" in f] + [o["t"] for o in ops if "t" in o]) + 0.01, 6)
-    return {"family": FAMILY, "seed": seed, "tier": tier, "cfg": cfg, "ops": ops, "faults": faults, "t_end": t_end}
+    post = []
+    if any(f.get("act") == "broker_up" and f.get("host") for f in faults) and not any(o.get("op") == "close" for o in ops):
+        # a broker came back under another address: group requests issued (one after the other) once the faults are over
+        # must find their way again - the coordinator lookup's answer is the only place the new address comes from
+        tm_ = cfg["client"]["timeout_ms"] / 1000.0
+        g_ = r9.choice(GROUPS)
+        for i in range(4):
+            post.append({"dt": round(1.0 + i * 2.2 * tm_, 6), "op": "call", "id": 300 + i, "kind": "offset_fetch", "tps": [all_tps[0]], "group": g_,
+                         "offset": 0, "metadata": None, "generation": -1, "member": "", "post": True})
+    return {"family": FAMILY, "seed": seed, "tier": tier, "cfg": cfg, "ops": ops, "faults": faults, "t_end": t_end, "post": post}
 
 
 def _known_brokers(client):
@@ -352,8 +361,9 @@ def _run(w, plan):
     _record = sim.record
 
     def record_and_snap(kind, *a):
-        if kind == "c_write":
-            snap_cache()
+        # (not only writes: a request routed inside the event - queued on a broker client that is still connecting - is
+        # written much later; the connection attempt it causes is recorded at once)
+        snap_cache()
         return _record(kind, *a)
 
     sim.record = record_and_snap
@@ -518,6 +528,8 @@ def _run(w, plan):
             if "t" in o:
                 sim.at(sim.now + o["t"], do_op, o)
         sim.at(sim.now + plan["t_end"], w.heal)
+        for o in plan.get("post", ()):
+            sim.at(sim.now + plan["t_end"] + o["dt"], do_op, o)
 
     if cfg["warm"]:
         d0 = client.load_metadata_for_topics()
@@ -564,7 +576,7 @@ def _run(w, plan):
                 _cur, peak = tracemalloc.get_traced_memory()
                 tracemalloc.stop()
                 n = max(1, budget["len"])
-                if budget["calls"] > 4000 + 400 * n or peak > 2_000_000 + 600 * n:
+                if budget["calls"] > 30000 + 400 * n or peak > 2_000_000 + 600 * n:
                     res.violate("C12", "C12:decoding-cost-not-proportional-to-input", "delivery of %d buffered bytes cost %d Python calls, peak %d bytes" % (
                         n, budget["calls"], peak), sim)
                 res.oblige("C12")
@@ -583,7 +595,8 @@ def _run(w, plan):
     tail = sim.now + allow
     while sim.now < tail and not sim.overrun and not sim.livelock and res.harness_error is None:
         run_until(sim.now + 5.0)
-        if all(c["w"] is None or c["w"].fires for c in calls.values()) and not reactor.pending("client.py"):
+        if all(c["w"] is None or c["w"].fires for c in calls.values()) and not reactor.pending("client.py") and \
+                all(o["id"] in calls for o in plan.get("post", ())):
             break
         # a call issued from the result callback of a long call (a join that timed out) starts late: it gets the same allowance
         late = [c["t"] for c in calls.values() if c["w"] is not None and not c["w"].fires]
@@ -636,6 +649,34 @@ def _oracles(w, plan, res, client, calls, state, cache_versions, unresolved, tim
                 continue
             written.append({"t": t, "cid": c.cid, "host": c.host, "port": c.port, "hdr": hdr, "body": body})
     garbage_used = any(k == "rule_garbage" for k in net.fault_counts)
+
+    # ---------------- C08: group requests find the coordinator again once the faults are over ----------------
+    posts = [calls[o["id"]] for o in plan.get("post", ()) if o["id"] in calls]
+    if posts:
+        res.oblige("C08")
+        last = posts[-1]
+        wd = last["w"]
+        ok_ = wd is not None and wd.fires == 1 and wd.ok
+        if not ok_ and len(posts) == len(plan.get("post", ())):
+            res.violate("C08", "C08:group-request-after-faults-ended-did-not-succeed:%s" % (wd.err if wd is not None and wd.fires else "unresolved"),
+                        "%d group requests issued one after the other from %.1f s after the last fault; the last one: %r" % (
+                            len(posts), plan["post"][0]["dt"], wd.value if wd is not None and wd.fires else None))
+            # the routing half of the same history (C07): the lookups made for these requests named the coordinator's
+            # present address, and yet no group request was ever written to a connection to it
+            t_first = state["t0"] + plan["t_end"] + plan["post"][0]["dt"]
+            named = set()
+            for e in cl.reqlog:
+                if e["key"] == kwire.FIND_COORDINATOR and e.get("resp_body") and e.get("delivered_seq") is not None and e.get("resp_t", 0) >= t_first \
+                        and e["resp_body"]["error"] == 0 and e.get("act") != "garbage":
+                    named.add((e["resp_body"]["host"], e["resp_body"]["port"]))
+            if named:
+                res.oblige("C07")
+                reached = [fr for fr in written if fr["t"] >= t_first and fr["hdr"]["key"] == 9 and (fr["host"], fr["port"]) in named]
+                if not reached:
+                    res.violate("C07", "C07:group-request-never-sent-to-the-coordinator-the-lookup-named",
+                                "lookups after the last fault named %r; no OffsetFetch was written to a connection to it" % (sorted(named),))
+        elif ok_:
+            res.probe("group_request_recovered_after_readdress")
 
     # ---------------- C11: every call resolves; timers released ----------------
     for cid_ in unresolved:
